@@ -12,7 +12,8 @@ RULE = ("live runs of all ten optimizer classes over random configurations (elit
         "init_population, objective family incl. plateau/constant/negative/2^40-scaled, stopping criteria); at every "
         "on_generation callback and at the end the record is compared with the maximum over every individual the "
         "objective wrapper has seen; alias observation and in-place perturbation of the population; every trace replayed "
-        "through the Coq loop model. distinct = configuration incl. seed.")
+        "through the Coq loop model. Additional family checked implementation-against-statement only (the loop model has finite "
+        "values): objectives infinite in the good direction at an evaluated optimum. distinct = configuration incl. seed.")
 THEORIES, TRUSTED, ASSUMPTIONS = _loop.THEORIES, _loop.TRUSTED, _loop.ASSUMPTIONS
 gen = _loop.gen
 
